@@ -65,6 +65,19 @@ def terminationModule (cs : List Comp) : Bool :=
 def iterative (cs : List Comp) : Bool :=
   match starterOf cs with | some s => s.subtype == some iterativeSubtype | none => false
 
+/-- where a module begins on its protein: the start of its first domain -/
+def moduleStart (cs : List Comp) : Option Int := cs.head?.map (·.start)
+
+/-- where it ends: the end of its last domain — of the one before it if the module has more than
+    one domain and its terminating domain is a product finalising one (TD / thioesterase) -/
+def moduleEnd (cs : List Comp) : Option Int :=
+  match cs.reverse with
+  | [] => none
+  | last :: rest =>
+    match endOf cs, rest with
+    | some e, second :: _ => if endTrimLabels.contains e.label then some second.stop else some last.stop
+    | _, _ => some last.stop
+
 /-! ### layout -/
 
 /-- the next two domains are a listed double-transporter pair -/
